@@ -132,7 +132,7 @@ MUTANTS += [
     dict(prop="C18", name="recording adapter ignores audio_dir on load", file="io/aoef/recording.py", old="            path = self.audio_dir / obj.path", new="            path = obj.path"),
     dict(prop="C18", name="relative_to swallowed", file="io/aoef/recording.py", old="            path = Path(obj.path).relative_to(self.audio_dir)", new="            try:\n                path = Path(obj.path).relative_to(self.audio_dir)\n            except ValueError:\n                path = obj.path"),
     dict(prop="C18", name="to_soundevent forgets audio_dir", file="io/aoef/__init__.py", old="            adapter = adapter_cls(audio_dir=audio_dir)\n            return adapter.to_soundevent(aoef_object.data)", new="            adapter = adapter_cls()\n            return adapter.to_soundevent(aoef_object.data)"),
-    dict(prop="C18", name="save writes before converting", file="io/aoef/__init__.py", old="    aoef_object = to_aeof(obj, audio_dir=audio_dir)\n    path.write_text(", new="    path.write_text(\"\")\n    aoef_object = to_aeof(obj, audio_dir=audio_dir)\n    path.write_text("),
+    dict(prop="C18", name="save writes before converting", file="io/aoef/__init__.py", old="    aoef_object = to_aeof(obj, audio_dir=audio_dir)\n\n    path.write_text(", new="    path.write_text(\"\")\n    aoef_object = to_aeof(obj, audio_dir=audio_dir)\n\n    path.write_text("),
     dict(prop="C18", name="loader drops audio_dir", file="io/loader.py", old="    return loader(path, audio_dir=audio_dir, type=type)", new="    return loader(path, audio_dir=None, type=type)"),
 ]
 AR = "io/aoef/recording.py"
@@ -154,7 +154,7 @@ MUTANTS += [
 ]
 AD = "arrays/dimensions.py"
 MUTANTS += [
-    dict(prop="C16", name="trailing element compared with stop", file=AD, old="    if coords[-1] >= stop - step / 2:", new="    if coords[-1] >= stop + step / 2:"),
+    dict(prop="C16", name="trailing element compared with stop", file=AD, old="    if coords.size > 0 and coords[-1] >= stop - step / 2:", new="    if coords.size > 0 and coords[-1] >= stop + step / 2:"),
     dict(prop="C16", name="step attribute stores 2*step", file=AD, old="            DimAttrs.step.value: step,\n            **attrs,\n        },\n    )\n\n\ndef create_time_range", new="            DimAttrs.step.value: 2 * step,\n            **attrs,\n        },\n    )\n\n\ndef create_time_range"),
     dict(prop="C16", name="time range step = samplerate", file=AD, old="        step = 1.0 / samplerate", new="        step = samplerate / 1.0"),
     dict(prop="C16", name="coord index off by one", file=AD, old="    return index - 1", new="    return index"),
@@ -244,4 +244,17 @@ MUTANTS += [
     dict(prop="C09", name="two metric terms share a label", file="terms/metrics.py", old='    label="Top 3 Accuracy",', new='    label="Accuracy",'),
     dict(prop="C09", name="match metrics keyed by term name on save only", file="io/aoef/match.py", old="                    data.key_from_term(metrics.term): metrics.value", new="                    metrics.term.name: metrics.value"),
     dict(prop="C09", name="empty clip score nan (original defect)", file="evaluation/tasks/sound_event_classification.py", old="    score = float(np.mean(scores)) if scores else None", new="    score = float(np.mean(scores))"),
+]
+AD = "io/aoef/adapters.py"
+MUTANTS += [
+    dict(prop="C02", name="base class: get_id also fills the AOEF store", file=AD, old="        if obj_id not in self._soundevent_store:\n            self._soundevent_store[obj_id] = obj\n\n        return obj_id", new="        if obj_id not in self._soundevent_store:\n            self._soundevent_store[obj_id] = obj\n            self._aoef_store[obj_id] = obj\n\n        return obj_id"),
+    dict(prop="C02", name="base class: to_aoef stores under the object's key, not its id", file=AD, old="            self._aoef_store[obj_id] = aoef_obj", new="            self._aoef_store[self._get_soundevent_key(obj)] = aoef_obj"),
+    dict(prop="C02", name="base class: from_id reads the AOEF store", file=AD, old="        return self._soundevent_store.get(obj_id)", new="        return self._aoef_store.get(obj_id)"),
+    dict(prop="C02", name="base class: values lists the data objects", file=AD, old="        return list(self._aoef_store.values())", new="        return list(self._soundevent_store.values())"),
+    dict(prop="C02", name="base class: to_soundevent always re-assembles", file=AD, old="        if obj_id not in self._soundevent_store:\n            soundevent_obj = self.assemble_soundevent(obj)\n            self._soundevent_store[obj_id] = soundevent_obj", new="        if True:\n            soundevent_obj = self.assemble_soundevent(obj)\n            self._soundevent_store[obj_id] = soundevent_obj"),
+    dict(prop="C02", name="base class: get_id forgets the mapping", file=AD, old="            self._mapping[key] = obj_id\n", new="            pass\n"),
+]
+MUTANTS += [
+    dict(prop="C08", name="overall score: mean replaced by the first clip's score", file=SED, old="        score=_mean([c.score for c in evaluated_clips]),", new="        score=_mean([c.score for c in evaluated_clips[:1]]),"),
+    dict(prop="C08", name="glue: every second evaluated clip dropped", file=SED, old="        evaluated_clips.append(evaluated_clip)\n\n    return evaluated_clips, true_classes, np.array(predicted_classes_scores)\n\n\ndef compute_overall_metrics", new="        if len(evaluated_clips) < 1:\n            evaluated_clips.append(evaluated_clip)\n\n    return evaluated_clips, true_classes, np.array(predicted_classes_scores)\n\n\ndef compute_overall_metrics"),
 ]
